@@ -30,6 +30,13 @@ type callRec struct {
 	returned int32 // 1 once the call has returned to the harness (atomic); events logged later are not the call's
 	frozen   int   // number of events at that moment
 	parked   int32 // workflow kind: parallel nodes of THIS call that have logged everything and are about to sleep (atomic)
+	// the sequential fault scenario (main.go lateScenario; never set in the concurrent phase, where
+	// nothing may synchronise two runs): a faulted call whose abandoned tasks stay in flight until the
+	// call made AFTER it on the same goroutine is waiting for its own nodes
+	hold     int32    // 1: abandoned tasks of this call wait for [release] instead of a fixed time
+	release  int32    // set by the next call's node once it is executing (atomic)
+	unparked int32    // abandoned tasks of this call that have been released and are about to return (atomic)
+	prev     *callRec // the faulted call made just before this one
 }
 
 type event struct {
